@@ -39,7 +39,11 @@ class DeformationOperation(BaseOperation):
         """Initialize the `DeformationOperation` object."""
         self.max_value = max_value
 
-        self.mask = np.ones((3, 3), dtype=bool) if mask is None else mask
+        # as booleans, whatever the mask is written with (0/1 integers, nested lists): on an
+        # integer array `~mask` is the bitwise complement (-1/-2), not the logical one
+        self.mask = (
+            np.ones((3, 3), dtype=bool) if mask is None else np.asarray(mask, dtype=bool)
+        )
 
     def to_dict(self) -> dict[str, Any]:
         """
